@@ -9,6 +9,7 @@ package main
 //  - enumeration of weak orderings.
 
 import (
+	"strings"
 	"fmt"
 	"go/ast"
 	"go/constant"
@@ -23,6 +24,9 @@ type Val any // *big.Int | bool | string | sliceVal | nilVal | objVal
 // the rule's ext callback).
 type nilVal struct{}
 type objVal struct{ id *big.Int }
+
+// tupleVal is the result of a call that yields several values.
+type tupleVal []Val
 
 // sliceVal is a slice of values (read-only in the evaluated subset).
 type sliceVal []Val
@@ -95,6 +99,24 @@ func (e *evalEnv) stmt(s ast.Stmt) *returned {
 		var vals []Val
 		for _, r := range x.Results {
 			vals = append(vals, e.expr(r))
+		}
+		if len(vals) == 1 {
+			if tv, ok := vals[0].(tupleVal); ok {
+				vals = []Val(tv)
+			}
+		}
+		if len(x.Results) == 0 && e.f.Type.Results != nil {
+			// bare return: the named results
+			for _, fld := range e.f.Type.Results.List {
+				for _, nm := range fld.Names {
+					o := e.f.Info.Defs[nm]
+					if v, ok := e.vars[o]; ok {
+						vals = append(vals, v)
+					} else {
+						vals = append(vals, zeroOf(o.Type()))
+					}
+				}
+			}
 		}
 		return &returned{vals: vals}
 	case *ast.BlockStmt:
@@ -169,12 +191,21 @@ func (e *evalEnv) stmt(s ast.Stmt) *returned {
 		if allBlank && !hasCall {
 			return nil
 		}
+		var vals []Val
 		if len(x.Lhs) != len(x.Rhs) {
-			undecided("multi-value assignment")
-		}
-		vals := make([]Val, len(x.Rhs))
-		for i, r := range x.Rhs {
-			vals[i] = e.expr(r)
+			if len(x.Rhs) != 1 {
+				undecided("multi-value assignment")
+			}
+			tv, ok := e.expr(x.Rhs[0]).(tupleVal)
+			if !ok || len(tv) != len(x.Lhs) {
+				undecided("multi-value assignment from %s", types.ExprString(x.Rhs[0]))
+			}
+			vals = []Val(tv)
+		} else {
+			vals = make([]Val, len(x.Rhs))
+			for i, r := range x.Rhs {
+				vals[i] = e.expr(r)
+			}
 		}
 		for i, l := range x.Lhs {
 			id, ok := l.(*ast.Ident)
@@ -248,6 +279,24 @@ func (e *evalEnv) stmt(s ast.Stmt) *returned {
 		return nil
 	case *ast.EmptyStmt:
 		return nil
+	case *ast.ExprStmt:
+		// a call made for its effect (given meaning by the ext callback or by evaluating
+		// the repo function it resolves to)
+		if call, ok := ast.Unparen(x.X).(*ast.CallExpr); ok {
+			func() {
+				defer func() {
+					if r := recover(); r != nil {
+						if u, ok := r.(evalUndecided); ok && strings.HasPrefix(u.msg, "call ") && strings.Contains(u.msg, ": no value") {
+							return // a function without results ran to its end
+						}
+						panic(r)
+					}
+				}()
+				e.expr(call)
+			}()
+			return nil
+		}
+		undecided("expression statement %s", types.ExprString(x.X))
 	case *ast.BranchStmt:
 		if x.Label == nil && x.Tok == token.CONTINUE {
 			return &returned{ctl: "continue"}
@@ -425,6 +474,10 @@ func zeroOf(t types.Type) Val {
 			return ""
 		}
 	}
+	switch t.Underlying().(type) {
+	case *types.Pointer, *types.Interface, *types.Slice, *types.Map, *types.Chan, *types.Signature:
+		return nilVal{}
+	}
 	undecided("zero value of %s", t)
 	return nil
 }
@@ -491,7 +544,15 @@ func (e *evalEnv) expr(x ast.Expr) Val {
 			return v
 		}
 		undecided("selector %s", types.ExprString(x))
+	case *ast.CompositeLit:
+		// an opaque freshly built object (its methods get meaning from the ext callback)
+		return objVal{id: big.NewInt(int64(x.Pos()))}
 	case *ast.UnaryExpr:
+		if x.Op == token.AND {
+			if _, ok := ast.Unparen(x.X).(*ast.CompositeLit); ok {
+				return e.expr(ast.Unparen(x.X))
+			}
+		}
 		v := e.expr(x.X)
 		switch x.Op {
 		case token.NOT:
@@ -689,10 +750,13 @@ func (e *evalEnv) expr(x ast.Expr) Val {
 					undecided("call %s: argument count", types.ExprString(x.Fun))
 				}
 				r := sub.block(g.Body.List)
-				if r == nil || len(r.vals) != 1 {
-					undecided("call %s: not single-valued", types.ExprString(x.Fun))
+				if r == nil || len(r.vals) == 0 {
+					undecided("call %s: no value", types.ExprString(x.Fun))
 				}
-				return r.vals[0]
+				if len(r.vals) == 1 {
+					return r.vals[0]
+				}
+				return tupleVal(r.vals)
 			}
 		}
 		undecided("call %s", types.ExprString(x.Fun))
